@@ -37,11 +37,19 @@ class Report:
         self.trusted = []
         self.assumptions = []
 
+    def _dup(self, key, status):
+        for o in self.obs:
+            if o.key == key and o.status == status:
+                return True
+        return False
+
     def ok(self, rule, key, detail=None, site=None):
-        self.obs.append(Obligation(rule, key, 'ok', site, detail))
+        if not self._dup(key, 'ok'):
+            self.obs.append(Obligation(rule, key, 'ok', site, detail))
 
     def viol(self, rule, key, detail, site=None):
-        self.obs.append(Obligation(rule, key, 'viol', site, detail))
+        if not self._dup(key, 'viol'):
+            self.obs.append(Obligation(rule, key, 'viol', site, detail))
 
     def undecided(self, rule, key, detail, site=None, proof=True):
         """proof rules fail closed on undecided; refutation rules only record it"""
